@@ -57,6 +57,7 @@ def run(check):
     for consts, lim, ws in generated:
         runs += [(p, t, consts['NRoots']) for p, t in usimrun.replay(check, ws, consts, limit=lim)]
     runs += usimrun.random_runs(check)     # random programs over the whole vocabulary
+    runs += usimrun.teardown_runs(check)   # holders / waiters torn down in every way, then inspected
     # random tear-downs of several holders of one supply of 3 while the supply is changed / borrowed / probed
     import random
     import storm
